@@ -322,6 +322,109 @@ def coupled_counter(prog, r, rec, counter, lrec, lst, init_ok=('bus_connections_
     return n
 
 
+def followed_by(fn, trigger, closer, what):
+    """On every path from an event matching trigger to a return of fn, an event
+    matching closer occurs afterwards.  Returns (number of trigger sites, reports)."""
+    n = set()
+
+    def on_event(user, ev, ctx):
+        if closer(ev):
+            user = None
+        if trigger(ev):
+            n.add(ev['line'])
+            user = ev['line']
+        return user
+
+    def on_exit(user, ctx, ret, ev):
+        if user is not None:
+            ctx.report('%s at line %d is not followed by %s before %s returns' % (
+                what[0], user, what[1], fn.name), user, key=('unfollowed', user))
+    ex = Explorer(fn, init=None, on_event=on_event, on_exit=on_exit, track='auto').run()
+    return len(n), ex.reports
+
+
+def c13_1d(ck, prog):
+    r = ck.rule('C13.1d', 'every change of the number of unauthenticated connections is followed by a '
+                're-evaluation of the accept gate (bus_context_check_all_watches)', 'PAIR',
+                breaks='the listening sockets stay disabled after capacity is freed (bus stops accepting), '
+                       'or stay enabled at the limit', floor=3)
+
+    def trig(ev):
+        return any(is_member(l, 'n_incomplete', 'BusConnections') and h in ('+=', '-=', '++', '--')
+                   for l, h, rh in written_lvalues(ev))
+
+    def closer(ev):
+        return ev['ev'] == 'call' and ev['e'].get('callee') == 'bus_context_check_all_watches'
+    total = 0
+    for f in lib.prod_funcs(prog):
+        if not any(trig(ev) for b, i, ev in f.events()):
+            continue
+        n, reps = followed_by(f, trig, closer, ('the change of n_incomplete', 'bus_context_check_all_watches()'))
+        total += n
+        if reps:
+            r.from_reports(reps, keyfn=lambda k, rep, f=f: '%s:n_incomplete->check_all_watches' % f.name)
+        else:
+            r.ok('%s:n_incomplete->check_all_watches' % f.name, {'sites': n})
+    if total < 3:
+        raise AnalysisBroken('only %d n_incomplete update sites found' % total)
+
+
+def c13_1e(ck, prog):
+    r = ck.rule('C13.1e', 'the pending-reply count used for the limit counts exactly the slots owed to this '
+                'caller (every slot whose receiver is the caller, and nothing else)', 'TS',
+                breaks='a caller holds more outstanding calls than max_replies_per_connection (slots to other '
+                       'callees uncounted) or is refused early', floor=1)
+    fn = prog.fn('bus_connections_expect_reply', 'bus/connection.c')
+    wid = fn.param('will_get_reply')['id']
+    ninc = [0]
+
+    def atom_key(atom, resolve):
+        if atom[0] == 'cmp' and atom[1] == '==':
+            for l, rr in ((atom[2], atom[3]), (atom[3], atom[2])):
+                if is_member(l, 'will_get_reply', 'BusPendingReply') and is_ref(rr) and rr.get('id') == wid:
+                    return ('mine', var_ids(l))
+        return None
+
+    def mine(ctx):
+        for k, v in ctx.atoms().items():
+            if k[0] == 'mine':
+                return v
+        return None
+
+    def on_edge(user, bid, idx, atom, sense, ctx):
+        k = atom_key(atom, None) if atom and atom[0] == 'cmp' else None
+        if k is not None and sense and user != 'counted':
+            return 'owed'
+        return user
+
+    def on_event(user, ev, ctx):
+        for lhs, how, rhs in written_lvalues(ev):
+            if is_ref(lhs, 'count') and how in ('++', '+='):
+                ninc[0] += 1
+                if mine(ctx) is not True:
+                    ctx.report('count is incremented for a slot not known to be owed to this caller',
+                               ev['line'], key='overcount')
+                user = 'counted'
+            if is_ref(lhs, 'pending') and how == '=':
+                if user == 'owed':
+                    ctx.report('a slot owed to this caller is skipped by the count (next slot fetched '
+                               'without ++count)', ev['line'], key='undercount')
+                user = 'idle'
+        if ev['ev'] == 'call' and ev['e'].get('callee') == 'bus_context_get_max_replies_per_connection':
+            if user == 'owed':
+                ctx.report('a slot owed to this caller is not counted before the limit comparison',
+                           ev['line'], key='undercount')
+            user = 'idle'
+        return user
+    ex = Explorer(fn, init='idle', on_event=on_event, on_edge=on_edge, atom_key=atom_key, track='auto').run()
+    if not ninc[0]:
+        raise AnalysisBroken('expect_reply no longer increments count')
+    if ex.reports:
+        r.from_reports(ex.reports, keyfn=lambda k, rep: 'expect_reply:%s' % k)
+    else:
+        r.ok('expect_reply:count==slots-owed-to-caller', {'states': ex.nstates})
+
+
 def c13_2(ck, prog):
     r = ck.rule('C13.2', 'each limit counter changes by one exactly where its list gains or loses an element',
                 'WHO', breaks='the counter drifts from the real population: limits are exceeded or '
@@ -470,5 +573,7 @@ def run(ck):
                       'per-uid hash arithmetic in adjust_connections_for_uid beyond its call sites')
     for v, prog in ck.programs(thorough_variants=('B',)):
         c13_1(ck, prog)
+        c13_1d(ck, prog)
+        c13_1e(ck, prog)
         c13_2(ck, prog)
         c13_3(ck, prog)
